@@ -1,4 +1,7 @@
 """C10 - annotated records survive GenBank and JSON round trips unchanged (object level: the text layer is identity)."""
+import re
+
+from Bio.SeqFeature import SeqFeature
 from Bio.SeqRecord import SeqRecord
 
 from antismash.common import serialiser
@@ -16,6 +19,15 @@ REC = "antismash.common.secmet.record:Record."
 
 # reproducible exploration: sets of Protocluster objects iterate by product name (see C05 / C17)
 Protocluster.__hash__ = lambda self: hash(self.product)
+
+
+def tree_copy(tree):
+    """what a text layer does to a tree of dicts, lists and strings: the reader gets fresh containers"""
+    if isinstance(tree, dict):
+        return {key: tree_copy(val) for key, val in tree.items()}
+    if isinstance(tree, (list, tuple)):
+        return [tree_copy(val) for val in tree]
+    return tree
 
 
 def qual_value(text):
@@ -36,13 +48,56 @@ def feature_table(bio_features):
     return rows
 
 
+_TOKEN = re.compile("(§[0-9]+§)")
+
+
+def same_text(a, b):
+    """two rendered texts are the same if their literal parts agree and the numbers rendered into them are equal"""
+    if a == b:
+        return True
+    if not (isinstance(a, str) and isinstance(b, str)) or ("§" not in a and "§" not in b):
+        return False
+    # numbers may be rendered as digits on one side and as a token on the other
+    pa, pb = _TOKEN.split(a), _TOKEN.split(b)
+    if len(pa) != len(pb):
+        pa, pb = re.split("(§[0-9]+§|[0-9]+)", a), re.split("(§[0-9]+§|[0-9]+)", b)
+        if len(pa) != len(pb):
+            return False
+    conds = []
+    for x, y in zip(pa, pb):
+        if x == y:
+            continue
+        xnum = x.startswith("§") or x.isdigit()
+        ynum = y.startswith("§") or y.isdigit()
+        if not (xnum and ynum):
+            return False
+        conds.append(num(x) == num(y))
+    return L.And(conds)
+
+
+def same_quals(a, b):
+    if len(a) != len(b):
+        return False
+    conds = []
+    for (ka, va), (kb, vb) in zip(a, b):
+        if ka != kb or isinstance(va, list) != isinstance(vb, list):
+            return False
+        if not isinstance(va, list):
+            va, vb = [va], [vb]
+        if len(va) != len(vb):
+            return False
+        conds += [same_text(x, y) for x, y in zip(va, vb)]
+    return L.And(conds)
+
+
 def same_rows(a, b):
     if len(a) != len(b):
         return False
     conds = []
     for x, y in zip(a, b):
-        if x["type"] != y["type"] or len(x["loc"]) != len(y["loc"]) or x["quals"] != y["quals"]:
+        if x["type"] != y["type"] or len(x["loc"]) != len(y["loc"]):
             return False
+        conds.append(same_quals(x["quals"], y["quals"]))
         conds += [L.And(p[0] == q[0], p[1] == q[1], p[2] == q[2]) for p, q in zip(x["loc"], y["loc"])]
     return L.And(conds)
 
@@ -70,14 +125,20 @@ def same_summary(a, b):
     conds = []
 
     def walk(x, y):
-        if isinstance(x, (list, tuple)):
+        if isinstance(x, dict):
+            if not isinstance(y, dict) or sorted(x) != sorted(y):
+                conds.append(False)
+                return
+            for key in sorted(x):
+                walk(x[key], y[key])
+        elif isinstance(x, (list, tuple)):
             if not isinstance(y, (list, tuple)) or len(x) != len(y):
                 conds.append(False)
                 return
             for p, q in zip(x, y):
                 walk(p, q)
         else:
-            conds.append(x == y)
+            conds.append(same_text(x, y) if isinstance(x, str) and isinstance(y, str) else x == y)
     for key in a:
         walk(a[key], b[key])
     return L.And(conds)
@@ -177,12 +238,13 @@ class RoundTrip(Harness):
             orig = serialiser.sequence_from_json
             serialiser.sequence_from_json = lambda _data: LenSeq(length)
             try:
-                again = serialiser.record_from_json(dict(data), "bacteria")
+                again = serialiser.record_from_json(tree_copy(data), "bacteria")
             finally:
                 serialiser.sequence_from_json = orig
         else:
             # SeqIO.write / SeqIO.parse: identity on the feature table (text layer outside the claim)
-            copy = SeqRecord(bio.seq, id=bio.id, name=bio.name, description=bio.description, features=list(bio.features),
+            copy = SeqRecord(bio.seq, id=bio.id, name=bio.name, description=bio.description,
+                             features=[SeqFeature(f.location, type=f.type, qualifiers=tree_copy(f.qualifiers)) for f in bio.features],
                              annotations=dict(bio.annotations))
             again = Record.from_biopython(copy, "bacteria")
         return bio, again
@@ -206,4 +268,282 @@ class RoundTrip(Harness):
                 ("second_reload_equals_first", same_summary(out["reloaded"], out["third"]))]
 
 
-HARNESSES = [RoundTrip()]
+class Annotations(RoundTrip):
+    """every remaining feature class with its own to_biopython / from_biopython pair, one kind per variant, on a gene of symbolic
+    shape; the order in which annotations were added (GO ids, NRPS/PKS qualifier domains, gene functions) is a symbolic choice"""
+    pid, name = "C10", "annotations"
+    SEC = "antismash.common.secmet."
+    functions = [REC + "to_biopython", REC + "from_biopython", REC + "add_biopython_feature",
+                 SEC + "features.feature:Feature.to_biopython", SEC + "features.feature:Feature.from_biopython",
+                 SEC + "features.cds_feature:CDSFeature.to_biopython", SEC + "features.cds_feature:CDSFeature.from_biopython",
+                 SEC + "features.gene:Gene.to_biopython", SEC + "features.gene:Gene.from_biopython",
+                 SEC + "features.source:Source.from_biopython",
+                 SEC + "features.domain:Domain.to_biopython", SEC + "features.domain:Domain.from_biopython",
+                 SEC + "features.antismash_feature:AntismashFeature.to_biopython", SEC + "features.antismash_feature:AntismashFeature.from_biopython",
+                 SEC + "features.pfam_domain:PFAMDomain.to_biopython", SEC + "features.pfam_domain:PFAMDomain.from_biopython",
+                 SEC + "features.antismash_domain:AntismashDomain.from_biopython",
+                 "antismash.detection.nrps_pks_domains.modular_domain:ModularDomain.to_biopython",
+                 "antismash.detection.nrps_pks_domains.modular_domain:ModularDomain.from_biopython",
+                 SEC + "features.cds_motif:CDSMotif.from_biopython", SEC + "features.cds_motif:ExternalCDSMotif.to_biopython",
+                 SEC + "features.prepeptide:Prepeptide.to_biopython", SEC + "features.prepeptide:Prepeptide.from_biopython",
+                 SEC + "features.module:Module.to_biopython", SEC + "features.module:Module.from_biopython",
+                 SEC + "qualifiers.gene_functions:GeneFunctionAnnotations.add_from_qualifier",
+                 SEC + "qualifiers.secmet:SecMetQualifier.from_biopython",
+                 SEC + "qualifiers.nrps_pks:NRPSPKSQualifier.add_from_qualifier", SEC + "qualifiers.nrps_pks:NRPSPKSQualifier.add_domain",
+                 SEC + "qualifiers.go:GOQualifier.from_biopython",
+                 SEC + "locations:build_location_from_others", SEC + "locations:location_from_string",
+                 "antismash.common.serialiser:feature_to_json", "antismash.common.serialiser:feature_from_json"]
+    bound = ("a record with one gene (simple, two exons, or origin-spanning; either strand; symbolic coordinates and record length) and "
+             "one kind of annotation per variant: gene functions + sec_met + NRPS/PKS qualifiers; a PFAM domain with GO terms; aSDomains "
+             "(plain and modular, with subtypes / specificities); CDS motifs (antiSMASH-made and external); a prepeptide with any "
+             "combination of leader and tail; an aSModule over two domains (optionally multi-gene); gene / source / misc features with "
+             "notes; a gene with codon_start 2 or 3. Annotation sub-locations and protein coordinates are symbolic; insertion orders are "
+             "symbolic choices; GenBank and JSON paths, each converted twice")
+    outside = ("the text layers (as for round_trip); free-text contents (descriptions, names, scores are fixed typical values): parsing "
+               "of arbitrary text by regular expressions is out of reach of the solver")
+    stubs = RoundTrip.stubs[:2] + ["insertion order of annotations: a symbolic index chooses the permutation"]
+    task_paths = 120
+    KINDS = ["cds_quals", "pfam", "asdomain", "motif", "prepeptide", "module", "generic", "codon_start"]
+
+    def variants(self, tier):
+        out = []
+        for kind in self.KINDS:
+            for shape in ("s", "j2", "o"):
+                for strand in (1, -1):
+                    for path in ("genbank", "json"):
+                        if kind == "codon_start" and shape == "o":
+                            continue    # a partial gene never spans the origin (the shifting code asserts it)
+                        if tier == "quick" and ((shape == "j2" and strand == 1) or (shape == "o" and strand == -1)
+                                                or (path == "json") != (shape == "j2")):
+                            continue
+                        out.append({"kind": kind, "gshape": shape, "strand": strand, "path": path})
+        return out
+
+    def vars(self, var):
+        d = {"n": "int", "perm": "int", "ps": "int", "pe": "int", "qs": "int", "qe": "int"}
+        d.update(shape_vars("g", var["gshape"]))
+        d.update(shape_vars("a", "s"))
+        d.update(shape_vars("b", "s"))
+        if var["kind"] == "prepeptide":
+            d["k3"] = "int"
+        return d
+
+    def pre(self, var, v):
+        n = v["n"]
+        gparts = model_parts("g", var["gshape"], v)
+        c = [shape_pre("g", var["gshape"], v, n), shape_pre("a", "s", v, n), shape_pre("b", "s", v, n),
+             L.Sum([p[1] - p[0] for p in gparts]) >= 18,     # room for the five residues of the translation and a stop
+             0 <= v["perm"], v["perm"] < 6, 0 <= v["ps"], v["ps"] < v["pe"], 0 <= v["qs"], v["qs"] < v["qe"],
+             # annotation locations lie inside the gene's parts (a in the first part, b in the last) and are ordered
+             gparts[0][0] <= v["as0"], v["ae0"] <= gparts[0][1], gparts[-1][0] <= v["bs0"], v["be0"] <= gparts[-1][1],
+             v["ae0"] - v["as0"] >= 3, v["be0"] - v["bs0"] >= 3]
+        if len(gparts) == 1:
+            c.append(v["ae0"] <= v["bs0"])
+        if var["gshape"] == "j2":
+            c.append(v["ge0"] < v["gs1"])       # exons that touch are refused as input
+            c.append(L.Or(v["gs0"] > 0, v["ge1"] < n))     # ... as is a split feature covering a whole linear record
+        if var["kind"] == "prepeptide":
+            # a prepeptide takes its gene's location, whole codons only
+            c.append(L.Sum([p[1] - p[0] for p in gparts]) == 3 * v["k3"])
+        return L.And(c)
+
+    def build_record(self, var, v):
+        from antismash.common.secmet.qualifiers.nrps_pks import _HMMResultLike
+        from antismash.common.secmet.features import CDSMotif, Feature, Gene, Module, PFAMDomain, Prepeptide
+        from antismash.common.secmet.features.antismash_domain import AntismashDomain
+        from antismash.common.secmet.features.source import Source
+        from antismash.common.secmet.locations import FeatureLocation
+        from antismash.common.secmet.qualifiers import GeneFunction, GOQualifier, SecMetQualifier
+        from antismash.detection.nrps_pks_domains.modular_domain import ModularDomain
+        import itertools
+        n, kind, strand = v["n"], var["kind"], var["strand"]
+        rec = mkrecord(n, var["gshape"] == "o")
+        rec.id = rec.name = "rec"
+        gloc = build("g", var["gshape"], v, strand)
+        cds = DummyCDS(location=gloc, locus_tag="gene", translation="MAGIC")
+        rec.add_cds_feature(cds)
+        aloc, bloc = build("a", "s", v, strand), build("b", "s", v, strand)
+        perm = v["perm"]
+        order3 = list(itertools.permutations(range(3)))
+
+        def chosen(items):
+            """the items in the insertion order selected by the symbolic index"""
+            for idx, order in enumerate(order3):
+                if perm == idx:
+                    return [items[i] for i in order]
+            return list(items)
+
+        if kind == "cds_quals":
+            funcs = chosen([(GeneFunction.CORE, "rule-based-clusters", "desc one", "T1PKS"),
+                            (GeneFunction.ADDITIONAL, "smcogs", "SMCOG1001 (Score: 10; E-value: 1e-05)", None),
+                            (GeneFunction.TRANSPORT, "resist", "pump", None)])
+            for func, tool, desc, product in funcs:
+                cds.gene_functions.add(func, tool, desc, product)
+            cds.sec_met = SecMetQualifier(chosen([SecMetQualifier.Domain("PKS_KS", 1e-10, 200.5, 10, "rule-based-clusters"),
+                                                  SecMetQualifier.Domain("PKS_AT", 3.5e-7, 99.0, 4, "rule-based-clusters"),
+                                                  SecMetQualifier.Domain("adh_short", 0.001, 25.25, 2, "rule-based-clusters")]))
+            # protein coordinates here are written with {:d} and read back by a [0-9]+ pattern: fixed values
+            hits = chosen([("PKS_KS", 2, 9, ["PKS_KS", "Trans-AT-KS"]), ("PKS_AT", 11, 20, ["PKS_AT"]),
+                           ("AMP-binding", 2, 20, ["AMP-binding"])])
+            for i, (name, start, end, names) in enumerate(hits):
+                hit = _HMMResultLike(name, start, end, 1e-20, 150.5, names)
+                cds.nrps_pks.add_domain(hit, "nrpspksdomains_gene_%s.%d" % (name, i))
+            cds.nrps_pks.type = "Type I Modular PKS"
+        elif kind == "pfam":
+            pfam = PFAMDomain(aloc, "a description", FeatureLocation(v["ps"], v["pe"]), identifier="PF00032.12", tool="pfams",
+                              locus_tag="gene")
+            pfam.domain_id = "pfam_gene_1"
+            pfam.gene_ontologies = GOQualifier(dict(chosen([("GO:0016491", "oxidoreductase activity"),
+                                                           ("GO:0009055", "electron transfer activity"),
+                                                           ("GO:0016020", "membrane")])))
+            pfam.score, pfam.evalue, pfam.database, pfam.detection = 20.5, 1e-06, "Pfam-A.hmm", "hmmscan"
+            rec.add_pfam_domain(pfam)
+            second = PFAMDomain(bloc, "other", FeatureLocation(v["qs"], v["qe"]), identifier="PF00005", tool="pfams", locus_tag="gene")
+            second.domain_id = "pfam_gene_2"
+            rec.add_pfam_domain(second)
+        elif kind == "asdomain":
+            plain = AntismashDomain(aloc, "sometool", FeatureLocation(v["ps"], v["pe"]), "gene", domain="adh_short")
+            plain.domain_id = "sometool_gene_1"
+            plain.asf.add("active site one")
+            rec.add_antismash_domain(plain)
+            modular = ModularDomain(bloc, FeatureLocation(v["qs"], v["qe"]), "gene")
+            modular.domain = "PKS_KS"
+            modular.domain_id = "nrpspksdomains_gene_PKS_KS.1"
+            modular.subtypes = chosen(["Trans-AT-KS", "Beta-OH", "other"])[:2]
+            modular.specificity = chosen(["consensus: mal", "PKS signature: mal", "Minowa: mmal"])
+            modular.label, modular.translation = "gene_KS1", "MAG"
+            rec.add_antismash_domain(modular)
+        elif kind == "motif":
+            motif = CDSMotif(aloc, "gene", FeatureLocation(v["ps"], v["pe"]), tool="nrps_pks_domains")
+            motif.domain_id, motif.label, motif.evalue, motif.score = "nrpspksmotif_gene_0001", "C1_dual", 1e-05, 12.5
+            motif.notes.append("a note")
+            rec.add_cds_motif(motif)
+            # an external CDS_motif only ever arrives through from_biopython
+            from Bio.SeqFeature import SeqFeature
+            ext = SeqFeature(bloc, type="CDS_motif")
+            ext.qualifiers["note"] = ["external motif"]
+            ext.qualifiers["label"] = ["thing"]
+            rec.add_biopython_feature(ext)
+        elif kind == "prepeptide":
+            # leader / tail presence: the symbolic index picks one of the four combinations (lengths fixed per combination)
+            combos = [("", ""), ("M", ""), ("", "C"), ("MA", "C")]
+            leader, tail = combos[0]
+            for idx, combo in enumerate(combos):
+                if perm == idx:
+                    leader, tail = combo
+            pre = Prepeptide(gloc, "lanthipeptide", "AG", "gene", "lanthipeptides", "Class-II", 15.5, 3000.25, 3010.75,
+                             alternative_weights=[3028.8, 3046.8], leader=leader, tail=tail)
+            pre.domain_id = "lanthipeptides_gene_1"
+            rec.add_cds_motif(pre)
+        elif kind == "module":
+            first = ModularDomain(aloc, FeatureLocation(v["ps"], v["pe"]), "gene")
+            first.domain, first.domain_id = "PKS_KS", "nrpspksdomains_gene_PKS_KS.1"
+            second = ModularDomain(bloc, FeatureLocation(v["qs"], v["qe"]), "gene")
+            second.domain, second.domain_id = "PKS_AT", "nrpspksdomains_gene_PKS_AT.1"
+            doms = [first, second] if strand == 1 or var["gshape"] != "s" else [second, first]
+            for dom in doms:
+                rec.add_antismash_domain(dom)
+            if var["gshape"] == "s":
+                mloc = FeatureLocation(v["as0"], v["be0"], strand)
+            else:
+                mloc = gloc
+            module = Module(mloc, doms, module_type=Module.types.PKS, complete=True, starter=True, iterative=True)
+            module.add_monomer("mal", "ohmal")
+            module.add_monomer("mmal", "ccmmal")
+            rec.add_module(module)
+        elif kind == "generic":
+            rec.add_gene(Gene(gloc, locus_tag="gene", gene_name="geneA", qualifiers={"old_locus_tag": ["x1"]}))
+            misc = Feature(aloc, feature_type="misc_feature")
+            misc.notes.extend(chosen(["zeta", "alpha", "mid"]))
+            rec.add_feature(misc)
+            created = Feature(bloc, feature_type="misc_binding", created_by_antismash=True)
+            rec.add_feature(created)
+            rec.add_source(Source(FeatureLocation(0, n, 1), qualifiers={"organism": ["thing"], "mol_type": ["genomic DNA"]}))
+        elif kind == "codon_start":
+            # such a gene only ever arrives through from_biopython; its stored location is shifted and shifted back on output
+            from Bio.SeqFeature import SeqFeature
+            bio = SeqFeature(build("g", var["gshape"], v, strand), type="CDS")
+            bio.qualifiers.update({"locus_tag": ["shifted"], "translation": ["MAG"]})
+            start = "2"
+            for idx in (2, 3):
+                if perm == idx:
+                    start = str(idx)
+            bio.qualifiers["codon_start"] = [start]
+            bio.qualifiers["note"] = ["from the input file"]
+            rec.add_biopython_feature(bio)
+            rec.get_cds_by_name("shifted").notes.append("added by an analysis")    # as smcog_trees / tta do
+        return rec
+
+    def run(self, var, v):
+        if L.issym(v["n"]):
+            from ..core import ENG
+            ENG.lazy_tokens = True
+        rec = self.build_record(var, v)
+        before = internal(rec)
+        first_bio, rec2 = self.convert(var, rec)
+        first_rows = feature_table(first_bio.features)
+        again_rows = feature_table(rec.to_biopython().features)      # e.g. the JSON results and then the GenBank file
+        second_bio, rec3 = self.convert(var, rec2)
+        return {"first_output": first_rows, "second_output": feature_table(second_bio.features), "written_again": again_rows,
+                "before": before,
+                "counts": [rec.get_feature_count(), rec2.get_feature_count(), rec3.get_feature_count()],
+                "internal": [internal(rec), internal(rec2), internal(rec3)]}
+
+    def post(self, var, v, out):
+        if is_raised(out):
+            return [("round_trip_does_not_fail", False)]
+        return [("first_output_is_a_fixed_point", same_rows(out["first_output"], out["second_output"])),
+                ("writing_does_not_change_the_record", L.And(same_rows(out["first_output"], out["written_again"]),
+                                                             same_summary({"x": out["before"]}, {"x": out["internal"][0]}))),
+                ("reloaded_record_has_the_same_features", L.And(out["counts"][0] == out["counts"][1], out["counts"][1] == out["counts"][2])),
+                ("reloaded_record_has_the_same_annotations", L.And(same_summary({"x": out["internal"][0]}, {"x": out["internal"][1]}),
+                                                                   same_summary({"x": out["internal"][1]}, {"x": out["internal"][2]})))]
+
+
+def internal(rec):
+    """object-level view of the annotations (not just their rendered qualifiers), keyed by feature kind and name"""
+    rows = {}
+
+    def notes(feat):
+        return sorted(list(feat._qualifiers.get("note") or []) + list(feat.notes))
+
+    def translation(feat):
+        try:
+            return str(feat.translation)
+        except ValueError:
+            return None
+    for cds in rec.get_cds_features():
+        rows["cds " + cds.get_name()] = (
+            canon_loc(cds.location), str(cds.gene_function), [str(f) for f in cds.gene_functions],
+            [str(d) for d in cds.sec_met] if cds.sec_met else [], cds.nrps_pks.type,
+            [(d.name, cn(d.start), cn(d.end), d.feature_name, list(d.subtypes[:1])) for d in cds.nrps_pks.domains],
+            [canon_loc(m.location) for m in cds.modules], notes(cds))
+    for dom in rec.get_pfam_domains():
+        rows["pfam " + dom.get_name()] = (
+            canon_loc(dom.location), cn(dom.protein_location.start), cn(dom.protein_location.end),
+            dom.full_identifier, dom.description, sorted(dom.gene_ontologies.ids) if dom.gene_ontologies else [],
+            dom.locus_tag, dom.tool, str(dom.score), str(dom.evalue), str(dom.database), str(dom.detection))
+    for dom in rec.get_antismash_domains():
+        rows["asdomain " + dom.get_name()] = (
+            type(dom).__name__, canon_loc(dom.location), cn(dom.protein_location.start),
+            cn(dom.protein_location.end), str(dom.domain), dom.tool, dom.locus_tag, list(dom.asf.to_biopython()),
+            list(getattr(dom, "subtypes", [])), list(getattr(dom, "specificity", [])), str(dom.label), translation(dom))
+    for motif in rec.get_cds_motifs():
+        row = [type(motif).__name__, canon_loc(motif.location), str(motif.tool), str(motif.locus_tag), notes(motif)]
+        if hasattr(motif, "core"):
+            row += [motif.leader, motif.core, motif.tail, motif.peptide_class, motif.peptide_subclass, str(motif.score),
+                    [str(w) for w in motif.alternative_weights]]
+        rows["motif " + ("external" if type(motif).__name__ == "ExternalCDSMotif" else motif.get_name())] = tuple(row)
+    for i, module in enumerate(rec.get_modules()):
+        rows["module %d" % i] = (
+            canon_loc(module.location), [d.get_name() for d in module.domains], str(module.module_type),
+            module.is_complete(), module.is_starter_module(), module.is_final_module(), module.is_iterative(),
+            [list(p) for p in module.monomers], list(module.parent_cds_names))
+    for gene in rec.get_genes():
+        rows["gene " + gene.get_name()] = (str(gene.gene_name), canon_loc(gene.location), notes(gene))
+    for feat in list(rec.get_generics()) + list(rec.get_sources()):
+        rows["generic " + feat.type] = (canon_loc(feat.location), notes(feat), feat.created_by_antismash)
+    return rows
+
+
+HARNESSES = [RoundTrip(), Annotations()]
